@@ -410,6 +410,11 @@ func (*c18bWorld) Runs(tier string) int {
 	}
 	return 4000
 }
+
+// ProcessRuns: a fresh worker process every 40 runs, so that lazily initialised process-wide state (memo tables,
+// one-time initialisers) is cold again and its first, racy use happens under the scheduler many times per check.
+func (*c18bWorld) ProcessRuns() int { return 40 }
+
 func (*c18bWorld) Info() kernel.WorldInfo {
 	return kernel.WorldInfo{
 		Level: "exploration",
@@ -430,9 +435,17 @@ func (w *c18bWorld) Run(c *kernel.RunCtx) {
 	progs := make([]*program, ntasks)
 	withDbg := make([]bool, ntasks)
 	cp := loadCorpus()
+	// swarm: a quarter of the runs are about big-number arithmetic after Genesis in every task
+	numberRun := c.Bool(1, 4)
+	genLongNumbers = numberRun
+	defer func() { genLongNumbers = false }()
 	for i := range progs {
 		c.Begin("prog")
-		switch c.Pick(4, 3, 3) {
+		kindW := []int{4, 3, 3}
+		if numberRun {
+			kindW = []int{0, 1, 6}
+		}
+		switch c.Pick(kindW...) {
 		case 0:
 			e := cp[c.Choose(len(cp))]
 			p := &program{flags: parseFlags(e.F), amount: uint64(e.A), src: "corpus"}
@@ -448,6 +461,9 @@ func (w *c18bWorld) Run(c *kernel.RunCtx) {
 			}
 		default:
 			progs[i] = genProgram(c)
+			if numberRun {
+				progs[i].flags |= parseFlags("UTXO_AFTER_GENESIS")
+			}
 		}
 		if len(progs[i].unlock)+len(progs[i].lock) > 1500 {
 			// a yield per function entry makes very long scripts cost millions of scheduler steps: keep them out of this world
